@@ -205,7 +205,17 @@ func (c *Ctx) Finish(start time.Time, extra map[string]any) int {
 		switch o.st {
 		case Discharged:
 			nDis++
-		case Violated, Undecided:
+		case Undecided:
+			// "Could not decide on this tree" is not a found violation: the rule
+			// did not recognise the code's shape (after a refactoring, say). It is
+			// printed and counted, and fails the check only under VERIF_STRICT=1.
+			nUnd++
+			fmt.Printf("UNDECIDED: property=%s rule=%s %s at %s — %s\n", c.Prop, o.Rule, o.Key, o.Pos, o.Detail)
+			if os.Getenv("VERIF_STRICT") != "1" {
+				continue
+			}
+			fallthrough
+		case Violated:
 			isKnown := false
 			if o.st == Violated {
 				for _, k := range known {
@@ -220,9 +230,6 @@ func (c *Ctx) Finish(start time.Time, extra map[string]any) int {
 				nKnown++
 				o.Status = "known-finding"
 				continue
-			}
-			if o.st == Undecided {
-				nUnd++
 			}
 			nViol++
 			os.MkdirAll(replayDir, 0o755)
@@ -271,6 +278,7 @@ func (c *Ctx) Finish(start time.Time, extra map[string]any) int {
 		"known_findings": nKnown,
 		"violated_or_undecided": nViol,
 		"undecided":   nUnd,
+		"undecided_policy": "an undecided obligation (shape not recognised, instance floor not met) is reported as UNDECIDED and does not fail the check unless VERIF_STRICT=1; only decided contradictions are violations",
 		"evaluations": len(c.Obls),
 		"distinct_nontrivial": len(distinct),
 		"rule":        "one evaluation = one obligation (rule instance on one construct of the current tree); distinct = distinct rule+construct keys; every obligation is non-trivial in that it was generated from a construct found in the source, not from a constant list",
